@@ -1071,6 +1071,11 @@ class MapAsyncInsertJob(MapAsyncNode):
                        note='documented bound: at most `parallelism` mapped coroutines exist at any time (queued + being awaited)'),
                 Clause('C03.spins_without_touching_the_queue', ['C03', 'C02'], when='yield:1',
                        text='Q == old(Q) and len(Q) >= p and delta == 0'),
+                Clause('C03.no_mapped_coroutine_is_started_while_waiting_for_a_slot', ['C03'], when='yield:1',
+                       fn=lambda self_, I, o, fr: z3.BoolVal(len(o.state.ghost['created'].items) == 0 and
+                                                             not any(ev.get('kind') == 'opaque' and ev.get('name') == 'func'
+                                                                     for ev in o.state.events)),
+                       note='accepted-but-unfinished work stays bounded: the mapped function only runs for jobs that have a slot'),
                 Clause('C05.hold_moves_into_the_queue', ['C05', 'C04'], when='return', text='delta == 0',
                        note='the hold taken by update() now accounts for the queued job'),
                 Clause('C16.failing_mapped_function_leaves_queue_and_holds_untouched', ['C16', 'C05', 'C02'], when='raise',
